@@ -866,6 +866,7 @@ def _run_analysis(case, kind, tmp):
     pooled_compared = 0
     evals = 0
     fanout = 0
+    ref_tasks = []
     ties = 0
     wties = 0
     ref = None
@@ -907,6 +908,7 @@ def _run_analysis(case, kind, tmp):
         if j == 0:
             ref = r
             fanout = len(recs)
+            ref_tasks = sorted(x["t"] for x in recs)
             if r["outcome"] == "ok" and stage in S.VALUES and recs:
                 best = min(float.fromhex(x["v"]) for x in recs if "v" in x)
                 ties = sum(1 for x in recs if "v" in x and float.fromhex(x["v"]) == best)
@@ -927,6 +929,18 @@ def _run_analysis(case, kind, tmp):
                     orders.add(S.order_digest(child))
             if kind == "zhit" and L.get("rec"):
                 stats["zhit.rec_orders_logged"] = stats.get("zhit.rec_orders_logged", 0) + 1
+        if kind == "zhit" and ref["outcome"] == "ok" and r["outcome"] == "ok" and ref_tasks:
+            # every run evaluates the same candidates, however they are distributed over workers (Z-HIT has no early stop)
+            got_tasks = sorted(x["t"] for x in recs)
+            stats["zhit.task_sets_compared"] = stats.get("zhit.task_sets_compared", 0) + 1
+            if got_tasks != ref_tasks:
+                missing = sorted(set(ref_tasks) - set(got_tasks))
+                viol.append({
+                    "key": "C17/zhit/candidates-evaluated-differ",
+                    "msg": f"perform_zhit (run {run['tag']}, num_procs={run['P']}) evaluated {len(got_tasks)} offset candidates, the reference run {len(ref_tasks)}; "
+                           f"never evaluated here: {missing[:6]}{'...' if len(missing) > 6 else ''}",
+                    "witness": {"missing": missing[:40], "num_procs": run["P"], "replay_case": {**{k: v for k, v in case.items() if k != "runs"}, "runs": [runs[0], run]}},
+                })
         bad, dev, detail = _compare(ref, r)
         evals += 1
         if ref["outcome"] == "ok" and r["outcome"] == "ok" and "info:method6" in ref["ident"]:
